@@ -162,12 +162,23 @@ Theorem C17_oracle_sound : forall dst pre post,
 Proof. exact readonly_oracle_sound. Qed.
 Print Assumptions C17_oracle_sound.
 
+(* The same for cells the harness caught a call trying to write while its arguments lay in
+   read-only memory (this also sees writes that are undone before the call returns): the boolean
+   test decides "every such cell is in an array of the call's own or in dst[len:cap]" - the very
+   predicate the _readonly theorems establish for the model's write log. *)
+Theorem C17_confined_oracle_sound : forall dst n0 ws,
+  confined_oracle dst n0 ws = true <-> writes_confined dst n0 ws.
+Proof. exact confined_oracle_sound. Qed.
+Print Assumptions C17_confined_oracle_sound.
+
 (* Verdict 0 of the correspondence check on a recorded call means: the observed arrays satisfy
-   the spec predicate, and the observation (changed cells, panic, error class, aliasing of the
-   results) equals the model's prediction. *)
-Theorem C17_check_case_ok : forall c e pre chg p err rs ks,
-  check_case (Case c e pre chg p err rs ks) = 0%Z ->
+   the spec predicate, no store into read-only caller memory outside dst[len:cap] was caught, and
+   the observation (changed cells, panic, error class, aliasing of the results) equals the
+   model's prediction. *)
+Theorem C17_check_case_ok : forall c e pre chg p err rs ks wf,
+  check_case (Case c e pre chg p err rs ks wf) = 0%Z ->
   readonly_spec (dst_of c) (heap_of pre) (apply_changes (heap_of pre) chg) /\
-  model_agrees Fixed (Case c e pre chg p err rs ks) = true.
+  writes_confined (dst_of c) (length (heap_of pre)) wf /\
+  model_agrees Fixed (Case c e pre chg p err rs ks wf) = true.
 Proof. exact check_case_ok. Qed.
 Print Assumptions C17_check_case_ok.
